@@ -228,7 +228,7 @@ static void judge(Ctx& ctx, const Case& c, bool from_replay) {
     if (d.same) return true;
     long long dropped = 0;
     if (only_small_triangles_dropped(s, ref, got, dropped))
-      fail("C16.clipperd_open_paths", { "open_path_small_triangle_dropped", mode },
+      fail("C16.clipperd_open_path_dropped", { "open_path_small_triangle_dropped", mode },   // own claim id: keeps the witness slots of C16.clipperd_open_paths free
            std::to_string(dropped) + " open 3-point result path(s) with two points less than 2 scaled units apart (in x and in y) returned by Clipper64 are missing from the ClipperD result; everything else is equal. " + d.detail);
     else fail("C16.clipperd_open_paths", { d.kind, mode }, d.detail);
     return false;
@@ -306,7 +306,7 @@ static void judge(Ctx& ctx, const Case& c, bool from_replay) {
           bool unchanged = got.size() == S.size();
           for (size_t i = 0; unchanged && i < S.size(); ++i) { unchanged = got[i].size() == S[i].size();
             for (size_t j = 0; unchanged && j < S[i].size(); ++j) unchanged = biteq(got[i][j].x, S[i][j].x) && biteq(got[i][j].y, S[i][j].y); }
-          if (!d.same) fail("C16.inflate_d", { unchanged ? "delta0_returns_unrounded_input" : d.kind }, d.detail);
+          if (!d.same) fail(unchanged ? "C16.inflate_d_delta0" : "C16.inflate_d", { unchanged ? "delta0_returns_unrounded_input" : d.kind }, d.detail);
           break;
         }
         check_paths("C16.inflate_d", ref, got, "InflatePaths");
@@ -445,8 +445,8 @@ static int pick_precision(Rng& r) { return r.chance(0.15) ? 2 : r.irange(-8, 8);
 
 void vf_case(Ctx& ctx, uint64_t i) {
   Rng& r = ctx.rng;
-  // api mix (per 100 cases): ClipperD paths 26, tree 18, small-triangle-biased 8, BooleanOp 10, Inflate 13, RectClip 7, RectClipLines 5, Trim 7, Minkowski 6
-  static const int mix[] = { 26, 18, 8, 10, 13, 7, 5, 7, 6 };
+  // api mix (per 100 cases): ClipperD paths 28, tree 19, small-triangle-biased 5, BooleanOp 10, Inflate 13, RectClip 7, RectClipLines 5, Trim 7, Minkowski 6
+  static const int mix[] = { 28, 19, 5, 10, 13, 7, 5, 7, 6 };
   int slot = (int)(i % 100), cls = 0; for (int acc = 0; cls < 9; ++cls) { acc += mix[cls]; if (slot < acc) break; }
   const bool biased = cls == 2;
   int api = cls < 2 ? cls : biased ? (r.coin() ? A_CD_PATHS : A_CD_TREE) : cls - 1;
